@@ -1,10 +1,14 @@
-\* C19 emission (quick tier): every terminal behaviour for <= 3 versions, printed as CASE lines
-SPECIFICATION Spec
+\* C19 emission (quick tier): every terminal behaviour for <= 3 versions, printed as CASE lines;
+\* the same run checks the invariants and termination under weak fairness (the liveness pass
+\* re-evaluates actions, so CASE lines repeat: the harness removes duplicates)
+SPECIFICATION FairSpec
 CONSTANTS
   MaxN = 2
   Sizes = {0, 2}
   FlavourSets = {{"SHA1"}, {"SHA256"}, {"SHA1", "SHA256"}}
   Mode = "code"
   Emit = TRUE
-INVARIANTS Converges NeverCorrupt NoTempLeft AlwaysOldOrNew FaultRaises
+INVARIANTS TypeOK Converges NeverCorrupt NoTempLeft AlwaysOldOrNew FaultRaises IndexFaultConverges
+           HashFaultWritesNothing GarbledNeverApplied ByPatchesWhenListed
+PROPERTY Terminates
 CHECK_DEADLOCK FALSE
